@@ -17,8 +17,8 @@ const NUMBERS: &[&str] = &[
 const STRINGS: &[&str] = &["\"\"", "\"a\"", "\"b\"", "\"1\"", "\"10\"", "\"9\"", "\" 1 \"", "\"0x10\"", "\"1e2\"", "\"1_0\"", "\"0b1\"", "\"abc\"", "\"\\xff\"", "\"-1\"", "\"- 1\"", "\"1 2\"", "\"0x1p4\"", "\"0x1p64\"", "\"0xffp60\"",
     // escapes directly followed by a digit / hex digit
     "\"\\0101\"", "\"\\0971\"", "\"\\x411\"", "\"\\u{41}1\"", "\"a\\z  1\"", "\"\\1\\02\\0033\"", "'\\65\\066'"];
-const OPAQUE: &[&str] = &["id", "id.f", "id[1]", "id()", "...", "{}", "function() end", "id:m()", "(id())", "(...)"];
-const SMALL: &[&str] = &["nil", "true", "false", "0", "1", "0.1", "\"a\"", "\"1\"", "1/0", "id", "id()", "...", "{}"];
+const OPAQUE: &[&str] = &["id", "id.f", "id[1]", "id()", "...", "{}", "function() end", "id:m()", "(id())", "(...)", "eff()", "id2"];
+const SMALL: &[&str] = &["nil", "true", "false", "0", "1", "0.1", "\"a\"", "\"1\"", "1/0", "id", "id()", "...", "{}", "eff()"];
 const BINOPS: &[&str] = &["+", "-", "*", "/", "//", "%", "^", "..", "==", "~=", "<", "<=", ">", ">=", "and", "or"];
 const UNOPS: &[&str] = &["not ", "-", "#"];
 
@@ -78,10 +78,35 @@ fn depth1(leaves: &[String]) -> Vec<String> {
     out
 }
 
+/// if-expressions: every choice of {constant, call} for each result, with known and unknown conditions
+fn if_products() -> Vec<String> {
+    let mut out = Vec::new();
+    // every choice of {constant, call} for each result, with known and unknown conditions: which results may run
+    // (`eff` is a function in every environment, so that a result can run whatever `id` is)
+    for c1 in ["true", "false", "nil", "id"] {
+        for r1 in ["1", "eff()"] {
+            for c2 in ["true", "false", "id", "id()"] {
+                for r2 in ["2", "eff()"] {
+                    for e in ["3", "eff()", "..."] {
+                        out.push(format!("if {} then {} elseif {} then {} else {}", c1, r1, c2, r2, e));
+                        for c3 in ["true", "nil", "id"] {
+                            for r3 in ["4", "eff()"] {
+                                out.push(format!("if {} then {} elseif {} then {} elseif {} then {} else {}", c1, r1, c2, r2, c3, r3, e));
+                            }
+                        }
+                    }
+                }
+            }
+        }
+    }
+    out
+}
+
 pub fn expressions(tier: Tier) -> Vec<String> {
     let l = leaves();
     let mut out = l.clone();
     out.extend(depth1(&l));
+    out.extend(if_products());
     let small: Vec<String> = SMALL.iter().map(|s| s.to_string()).collect();
     let inner = depth1(&small);
     // depth 2 over the small alphabet
@@ -110,19 +135,44 @@ struct Env {
 
 const ENVS: &[Env] = &[
     Env { name: "nil", setup: |_| {} },
-    Env { name: "false", setup: |it| it.set_global("id", Value::Bool(false)) },
-    Env { name: "0", setup: |it| it.set_global("id", Value::Num(0.0)) },
-    Env { name: "string", setup: |it| it.set_global("id", Value::str("s")) },
+    // `id2` is a second value of the same kind as `id` (another table with the same metamethods, ...)
+    Env {
+        name: "false",
+        setup: |it| {
+            it.set_global("id", Value::Bool(false));
+            it.set_global("id2", Value::Bool(true));
+        },
+    },
+    Env {
+        name: "0",
+        setup: |it| {
+            it.set_global("id", Value::Num(0.0));
+            it.set_global("id2", Value::Num(1.0));
+        },
+    },
+    Env {
+        name: "string",
+        setup: |it| {
+            it.set_global("id", Value::str("s"));
+            it.set_global("id2", Value::str("t"));
+        },
+    },
     Env {
         name: "logging table",
         setup: |it| {
             // an ET table: every metamethod logs
-            let block = luaref::parser::parse(b"id = ET'e'", Mode::Luau).unwrap().block;
+            let block = luaref::parser::parse(b"id = ET'e' id2 = ET'e2'", Mode::Luau).unwrap().block;
             let _ = it.run_chunk(&block, "setup");
             it.log.clear();
         },
     },
-    Env { name: "function returning 1, 2", setup: |it| it.set_global("id", ext("id", ExtRet::OneTwo)) },
+    Env {
+        name: "function returning 1, 2",
+        setup: |it| {
+            it.set_global("id", ext("id", ExtRet::OneTwo));
+            it.set_global("id2", ext("id2", ExtRet::OneTwo));
+        },
+    },
 ];
 
 fn lua_value_matches(v: &LuaValue, serialized_first: &str) -> bool {
@@ -203,7 +253,8 @@ fn run_case(expr_text: &str) -> Option<Case> {
         errors_excused: 0,
         violations: vec![],
     };
-    let uses_opaque = expr_text.contains("id") || expr_text.contains("...");
+    // only `id` differs between the environments
+    let uses_opaque = expr_text.contains("id");
     let envs: &[Env] = if uses_opaque { ENVS } else { &ENVS[..1] };
     let program = format!("local function __f(...) return {} end\nreturn __f(7, 8)", expr_text);
     let count_program = format!("local function __f(...) return select('#', {}) end\nreturn __f(7, 8)", expr_text);
@@ -223,6 +274,7 @@ fn run_case(expr_text: &str) -> Option<Case> {
             }
             let obs = luaref::observe(&program, mode, 5000, &|it| {
                 (env.setup)(it);
+                it.set_global("eff", ext("eff", ExtRet::OneTwo));
                 it.numfmt = fmt;
             });
             case.evaluations += 1;
@@ -286,7 +338,10 @@ fn run_case(expr_text: &str) -> Option<Case> {
             }
         }
         if !multiple {
-            let obs = luaref::observe(&count_program, Mode::Luau, 5000, &|it| (env.setup)(it));
+            let obs = luaref::observe(&count_program, Mode::Luau, 5000, &|it| {
+                (env.setup)(it);
+                it.set_global("eff", ext("eff", ExtRet::OneTwo));
+            });
             case.evaluations += 1;
             if let Outcome::Returned(r) = &obs.outcome {
                 if r != "1.0" {
@@ -309,8 +364,8 @@ fn classify_value(_expr: &str, _value: &LuaValue, _renders: &[String]) -> Option
 pub fn run(tier: Tier) -> Report {
     let mut report = Report::new("C08", "exploration", tier);
     report.rule = "every expression text of the grammar (3 constants, 28 numbers incl. -0, inf, nan, 2^53 neighbours, tiny/huge, 16 strings incl. \
-        numeric-looking and non-UTF-8, 10 opaque leaves; all unary and 16 binary operators over all leaf pairs, parentheses, casts, interpolations, \
-        if-expressions; depth 2 over a 13-leaf alphabet) is parsed by darklua and given to Evaluator::{evaluate, has_side_effects, \
+        numeric-looking and non-UTF-8, 12 opaque leaves (`id` and `id2` in 6 environments: nil, false, 0, a string, a table whose metamethods log, a function; `eff()`, a logging function in all of them); all unary and 16 binary operators over all leaf pairs, parentheses, casts, interpolations, \
+        if-expressions; depth 2 over a 14-leaf alphabet; if-expressions with 2-4 branches x {constant, call} results x known/unknown conditions) is parsed by darklua and given to Evaluator::{evaluate, has_side_effects, \
         can_return_multiple_values}; each claim is compared with luaref executing the expression for every assignment of the opaque leaves from \
         {nil, false, 0, string, logging-metatable table, function returning two values}, in Luau and (when the text is plain Lua) Lua 5.1 mode; a \
         case is non-trivial when the evaluator makes at least one claim (definite value, no side effects, single value)"
